@@ -51,6 +51,15 @@ def run(ctx: Ctx) -> None:
                      "the real handlers wrote; the per-step state changes are derived by the harness from the hook-recorded deltas (trusted)")
     ctx.assumptions += ["a block of event.log belongs to one step: blocks are delimited by the station load events the handler writes first at "
                         "every flush (all scenarios have stations)"]
+    # beyond the property: the time-step statistics rows against spec/HiveStats.tla (divergences only)
+    ctx.coverage["stats_rows_checked"] = sorted(c[1] for c in tv.cov if c[0] == "stats_row")
+    seen = set()
+    for d in tv.divg:
+        key = (d["c"], d["s"])
+        if key in seen:
+            continue
+        seen.add(key)
+        ctx.divergence(action="HiveStats", what=d["c"], detail=d["s"], witness=d["w"], line=d["line"], count=d["n"], file=d["file"])
     for v in tv.viol:
         f = ctx.work / v["file"]
         ctx.violation(v["c"], f"{v['c']}/{v['s']}", witness=v["w"], line=v["line"], file=v["file"], count=v["n"],
